@@ -96,9 +96,9 @@ def translate_taskgen(path):
         lc = body[0].value
         if len(lc.generators) == 1 and not lc.generators[0].ifs and isinstance(lc.generators[0].target, ast.Name):
             var = lc.generators[0].target.id
-            ok = (ast.unparse(lc.elt) == f"{var}.inv()" and ast.unparse(lc.generators[0].iter) == f"reversed({arg})")
+            ok = (ast.unparse(lc.elt) == f"{var}.inv()" and ast.unparse(lc.generators[0].iter) in (f"reversed({arg})", f"{arg}[::-1]"))
     if not ok:
-        raise Untranslatable("reverse_path is not `return [a.inv() for a in reversed(path)]`")
+        raise Untranslatable("reverse_path is not `return [a.inv() for a in reversed(path)]` (or over path[::-1])")
     out = ["Definition gen_inv (a : action) : action :=\n  match a with\n  | AWay ws => AWay (rev ws)"] + arms + ["  end.",
            "Definition gen_reverse_path (p : list action) : list action := map gen_inv (rev p).\n"]
     return "\n".join(out)
